@@ -665,6 +665,9 @@ def _column_is_row_hash(w, evs, col, lp, k, F):
     def check_hash(value):
         hs = hash_site(w, evs, value, None)
         if not hs:
+            via = helper_column(F, w, evs, value, lp, k)
+            if via is not None:
+                return via
             return "not `fasthash64(...) % ...`"
         c, wkey = hs
         if wkey != Lin.term(("param", width_p)).key():
@@ -684,6 +687,77 @@ def _column_is_row_hash(w, evs, col, lp, k, F):
                     return check_hash(s.value)
         return "bucket cell is not written in this iteration"
     return check_hash(col)
+
+
+_HELPER_SUMMARIES = {}
+
+
+def helper_hash_summary(F, callee):
+    """For a helper kernel that returns a column: ('ok', key_param, seed_param, width_param) if EVERY return path returns
+    fasthash64(<whole key param>, +/-<param> + c) % <param>; ('bad', why) if some path returns something else; None if the shape
+    is not understood."""
+    if callee.key in _HELPER_SUMMARIES:
+        return _HELPER_SUMMARIES[callee.key]
+    out = None
+    try:
+        hw = F.walk(callee)
+        rets = [e for e in hw.events if e.kind == "ret" and not e.implicit]
+        bp = [p for p, t in callee.ptypes.items() if t.kind == "bytes"]
+        roles = set()
+        bad = None
+        for r in rets:
+            hs = hash_site(hw, on_path(hw.events, r), r.value, None)
+            if not hs:
+                bad = "on some path the helper %s returns %s, which is not fasthash64(key, seed(row)) %% width" % (
+                    callee.name, show_lin(r.value.lin) if isinstance(r.value, Num) else r.value)
+                break
+            c, wkey = hs
+            a = c.args
+            sp = [t for t in a[1].lin.terms()] if len(a) == 2 and isinstance(a[1], Num) else []
+            if not (len(a) == 2 and isinstance(a[0], Bytes) and bp and a[0].root == bp[0] and a[0].stop is None and a[0].start == Lin.const(0)
+                    and len(sp) == 1 and sp[0][0] == "param" and a[1].lin.c[sp[0]] in (1, -1)):
+                bad = "the helper %s does not hash its whole key argument with a seed that is +/- one parameter" % callee.name
+                break
+            wp = [p for p in callee.params if Lin.term(("param", p)).key() == wkey]
+            if not wp:
+                bad = "the helper %s does not reduce the hash modulo a parameter" % callee.name
+                break
+            roles.add((bp[0], sp[0][1], wp[0]))
+        if bad:
+            out = ("bad", bad)
+        elif len(roles) == 1 and rets:
+            out = ("ok",) + next(iter(roles))
+    except AnalysisError:
+        out = None
+    _HELPER_SUMMARIES[callee.key] = out
+    return out
+
+
+def helper_column(F, w, evs, value, lp, k):
+    """value is the result of a helper call that provides this row's column: True / reason string / None (not a helper call)."""
+    if not isinstance(value, Num):
+        return None
+    t = value.lin.single_term()
+    if t is None or t[0] != "call":
+        return None
+    for c in evs:
+        if c.kind == "call" and c.callee is not None and isinstance(c.result, Num) and c.result.lin == value.lin and c.callee.name != "fasthash64":
+            sm = helper_hash_summary(F, c.callee)
+            if sm is None:
+                return None
+            if sm[0] == "bad":
+                return sm[1]
+            _, kp, sp, wp = sm
+            am = dict(zip(c.callee.params, c.args))
+            width_p = F.param_for(k, "width")
+            if not (isinstance(am.get(kp), Bytes) and am[kp].stop is None and am[kp].start == Lin.const(0)):
+                return "the helper is not given the whole key"
+            if not (isinstance(am.get(sp), Num) and seed_is_row(am[sp].lin, lp)):
+                return "the helper's seed argument is not an injective function of the row"
+            if not (isinstance(am.get(wp), Num) and width_p and am[wp].lin == Lin.term(("param", width_p))):
+                return "the helper's modulus is not the width parameter"
+            return True
+    return None
 
 
 def seed_is_row(lin, lp):
